@@ -96,6 +96,12 @@ def writes_ds(body):
 
 
 def run(ctx):
+    _run(ctx)
+    import witness
+    witness.report(ctx, "C17")
+
+
+def _run(ctx):
     rep = ctx.report
     prog = ctx.prog("default")
     progs = [("default", prog)]
